@@ -59,13 +59,22 @@ def plan(tier, seed):
                    for s in plan_graph_shards("A", n_max=4, chunk=16) + plan_graph_shards("B", n_max=5, n_min=5, k=3, parts=4)]
         shards += [dict(s, implicit=True, bound=s["bound"] + " ancestors implicit")
                    for s in plan_graph_shards("A", n_max=4, chunk=16) + plan_graph_shards("B", n_max=5, n_min=5, k=3, parts=4)]
+    # layer rules use the same report format with a layer tag per module (second message generator): every
+    # failing layer rule over the complete four-module space, under the two namings in which a sibling's name
+    # sorts between a module and its sub modules (a-b) or extends it (ab), layers given by name and mixed with regexes
+    for naming in ("adversarial", "hyphen"):
+        shards += [dict(s, part="layer", naming=naming, bound="layer-rule reports " + s["bound"] + " naming=" + naming)
+                   for s in plan_graph_shards("A", n_max=4 if tier == "quick" else 5, chunk=32 if tier == "quick" else 64)]
+    # rules whose subject or object is given by a pattern report exactly what the rule naming the matched modules reports
+    shards += [dict(s, part="regex", bound="reports of pattern rules " + s["bound"])
+               for s in plan_graph_shards("A", n_max=4 if tier == "quick" else 5, chunk=32 if tier == "quick" else 64)]
     from .c02 import pair_cases
 
     for lo in range(0, len(pair_cases()) + 200, 160):
         shards.append({"part": "scan", "lo": lo, "hi": lo + 160, "bound": "reports on scanned two-statement files"})
     return {
         "shards": shards,
-        "require_nonzero": ["scan-message", "lines:imports", "lines:missing", "lines:missing-any", "query:get", "query:other-from", "query:other-on"],
+        "require_nonzero": ["scan-message", "lines:imports", "lines:missing", "lines:missing-any", "query:get", "query:other-from", "query:other-on", "layer-report", "pattern-report:FAIL"],
     }
 
 
@@ -265,13 +274,86 @@ def scan_messages(shard, res, only=None):
     return viol
 
 
+def regex_reports(ns, I, seed, res, only=None):
+    """Differential: the report of a rule with a pattern side == the report of the rule that names the matches
+    (patterns with several matches, nested ones included); the pattern rule object has been applied to another
+    architecture (one module less) before."""
+    import re as _re
+
+    from . import c11
+    from ..spaces import SHAPES
+
+    ev = build(ns, I, seed)
+    decoy = c11.decoy_for(ns, I, seed)
+    viol = []
+    pats = [p for p in c11.regex_family(ns) if len([n for n in ns if _re.match(p, n)]) >= 2][:8]
+    for pat in pats:
+        matches = sorted(n for n in ns if _re.match(pat, n))
+        for other in [(x,) for x in ns[1:3]]:
+            for side in ("subj", "obj"):
+                for verb, imp, exc in SHAPES:
+                    key = [pat, list(other), side, verb, imp, exc]
+                    if only is not None and only != key:
+                        continue
+                    if side == "subj":
+                        a, b = c11.mk(verb, imp, exc, "regex", pat, "named", other), c11.mk(verb, imp, exc, "named", matches, "named", other)
+                    else:
+                        a, b = c11.mk(verb, imp, exc, "named", other, "regex", pat), c11.mk(verb, imp, exc, "named", other, "named", matches)
+                    if decoy is not None:
+                        run_rule(a, decoy)
+                    ga, gb = run_rule(a, ev), run_rule(b, ev)
+                    if res is not None:
+                        res.transitions += 2
+                        res.evaluations += 1
+                        res.traces += 1
+                        res.stats[f"pattern-report:{gb[0]}"] += 1
+                        if gb[0] == FAIL:
+                            res.nontrivial += 1
+                    if ga[0] != FAIL or gb[0] != FAIL:
+                        continue  # verdicts are C11's business
+                    try:
+                        pa, pb = parse_rule_message(ga[1], imp), parse_rule_message(gb[1], imp)
+                    except Unparsable as e:
+                        viol.append(("unparsable-line", key, "a line of the documented grammar", str(e)))
+                        continue
+                    if pa != pb:
+                        viol.append(("pattern-rule-report-differs-from-report-of-the-expanded-rule", key, gb[1].split("\n"), ga[1].split("\n")))
+    return viol
+
+
 def run_shard(shard, tier, seed):
     res = Result(shard["bound"])
+    if shard.get("part") == "regex":
+        for ns, I in shard_graphs(shard, seed):
+            res.states += 1
+            for kind, key, exp, got in regex_reports(ns, I, seed, res):
+                res.violation(kind, {"part": "regex", "modules": ns, "imports": I, "key": key, "seed": seed}, exp, got)
+        return res
     if shard.get("part") == "scan":
         for kind, case, exp, got in scan_messages(shard, res):
             res.violation(kind, case, exp, got)
         res.sample({"part": "scan", "file": "top/a.py", "source": "from top.b.c import helper\nfrom top.x import helper",
                     "rule": "top.a should not import anything", "expected_lines": ['"top.a" imports "top.b.c".', '"top.a" imports "top.x".']})
+        return res
+    if shard.get("part") == "layer":
+        from . import c05
+
+        for ns, I in shard_graphs(shard, seed):
+            ns, I = renamed_graph(ns, I, shard["naming"])
+            ev = build(ns, I, seed)
+            res.states += 1
+            for layers, specs in c05._layerings(ns):
+                for style in ("names", "mixed", "mixed2"):
+                    for spec in specs:
+                        res.transitions += 1
+                        res.evaluations += 1
+                        v = c05.judge(ns, I, layers, style, spec, ev, seed, None)
+                        res.traces += 1
+                        res.stats["layer-report"] += 1
+                        if I:
+                            res.nontrivial += 1
+                        if v:
+                            res.violation("layer-report-" + v[0], {"part": "layer", "modules": ns, "imports": I, "layers": layers, "style": style, "rule": spec, "seed": seed}, v[1], v[2])
         return res
     for ns, I in shard_graphs(shard, seed):
         ns, I = renamed_graph(ns, I, shard.get("naming", "identity"))
@@ -296,6 +378,14 @@ def _check_case(case):
     if case.get("part") == "scan":
         v = scan_messages({}, Result(), only=case["key"])
         return (v[0][0], v[0][2], v[0][3]) if v else None
+    if case.get("part") == "regex":
+        v = regex_reports(case["modules"], [tuple(e) for e in case["imports"]], case.get("seed", 0), None, only=case["key"])
+        return (v[0][0], v[0][2], v[0][3]) if v else None
+    if case.get("part") == "layer":
+        from . import c05
+
+        v = c05._check_case(case)
+        return ("layer-report-" + v[0],) + tuple(v[1:]) if v else None
     ns, I = case["modules"], [tuple(e) for e in case["imports"]]
     ev = build(ns, I, case.get("seed", 0), phantom=case.get("phantom", False), implicit=case.get("implicit", False))
     if "rule" in case:
@@ -324,7 +414,14 @@ def minimise(v):
                 case, changed = trial, True
     r = _check_case(case)
     v = dict(v, case=case, expected=r[1], observed=r[2])
-    if "rule" in case:
+    if case.get("part") == "regex":
+        k = case["key"]
+        v["signature"] = f"{kind}:{k[3]}/{k[5]}:{'import' if k[4] else 'imported'}:{k[2]}:edges{len(case['imports'])}"
+    elif case.get("part") == "layer":
+        spec = case["rule"]
+        shape = "anything" if spec.get("anything") else f"{spec['verb']}/{spec['exc']}"
+        v["signature"] = f"{kind}:{shape}:{case['style']}:edges{len(case['imports'])}"
+    elif "rule" in case:
         spec = case["rule"]
         shape = "anything" if spec.get("anything") else f"{spec['verb']}/{spec['exc']}"
         v["signature"] = f"{kind}:{shape}:{'import' if spec['imp'] else 'imported'}:edges{len(case['imports'])}"
